@@ -79,6 +79,33 @@ struct MapSpec {
   }
 };
 
+// a key type whose move constructor modifies its source (like std::string): a key that has been moved into a node
+// must not be used for the search afterwards (seed C08c)
+struct MKey {
+  int v;
+  MKey(int x = 0) : v(x) {} // NOLINT: implicit on purpose, the adapters pass ints
+  MKey(const MKey&) = default;
+  MKey& operator=(const MKey&) = default;
+  MKey(MKey&& o) noexcept : v(o.v) { o.v = -7; }
+  MKey& operator=(MKey&& o) noexcept {
+    v = o.v;
+    o.v = -7;
+    return *this;
+  }
+  friend bool operator==(const MKey& a, const MKey& b) { return a.v == b.v; }
+  friend bool operator!=(const MKey& a, const MKey& b) { return a.v != b.v; }
+  friend bool operator<(const MKey& a, const MKey& b) { return a.v < b.v; }
+  friend bool operator>(const MKey& a, const MKey& b) { return a.v > b.v; }
+  friend bool operator<=(const MKey& a, const MKey& b) { return a.v <= b.v; }
+  friend bool operator>=(const MKey& a, const MKey& b) { return a.v >= b.v; }
+};
+inline int key_int(int k) { return k; }
+inline int key_int(const MKey& k) { return k.v; }
+template <class H>
+struct HashOfMKey {
+  std::size_t operator()(const MKey& k) const { return H{}(k.v); }
+};
+
 // hash functors --------------------------------------------------------------------------------------
 struct HashIdentity {
   std::size_t operator()(int k) const { return (std::size_t)k; }
@@ -153,7 +180,7 @@ struct MapAdapter {
         auto it = c.find(k);
         r0 = it != c.end();
         if (r0) {
-          if (it->first != k) fail("ORACLE", "find(%d) returned an iterator to key %d", k, it->first);
+          if (key_int(it->first) != k) fail("ORACLE", "find(%d) returned an iterator to key %d", k, key_int(it->first));
           r1 = it->second;
         }
         break;
@@ -161,14 +188,14 @@ struct MapAdapter {
       case O_EMPLACE_OR_GET: {
         auto res = c.emplace_or_get(k, v);
         r0 = res.second;
-        if (res.first->first != k) fail("ORACLE", "emplace_or_get(%d) returned an iterator to key %d", k, res.first->first);
+        if (key_int(res.first->first) != k) fail("ORACLE", "emplace_or_get(%d) returned an iterator to key %d", k, key_int(res.first->first));
         r1 = res.first->second;
         break;
       }
       case O_GET_OR_EMPLACE: {
         auto res = c.get_or_emplace(k, v);
         r0 = res.second;
-        if (res.first->first != k) fail("ORACLE", "get_or_emplace(%d) returned an iterator to key %d", k, res.first->first);
+        if (key_int(res.first->first) != k) fail("ORACLE", "get_or_emplace(%d) returned an iterator to key %d", k, key_int(res.first->first));
         r1 = res.first->second;
         break;
       }
@@ -179,7 +206,7 @@ struct MapAdapter {
           return v;
         });
         r0 = res.second;
-        if (res.first->first != k) fail("ORACLE", "get_or_emplace_lazy(%d) returned an iterator to key %d", k, res.first->first);
+        if (key_int(res.first->first) != k) fail("ORACLE", "get_or_emplace_lazy(%d) returned an iterator to key %d", k, key_int(res.first->first));
         r1 = res.first->second;
         if (r0 && calls < 1) fail("ORACLE", "get_or_emplace_lazy inserted without calling the factory");
         break;
@@ -205,7 +232,7 @@ struct MapAdapter {
   }
   static void snapshot(C& c, long& mask, long& sum) {
     for (auto it = c.begin(); it != c.end(); ++it) {
-      int k = it->first;
+      int k = key_int(it->first);
       if (k < 0 || k >= NKEYS) fail("ORACLE", "final iteration yields unknown key %d", k);
       if (mask & (1 << k)) fail("ORACLE", "final iteration yields key %d twice", k);
       mask |= 1 << k;
@@ -281,6 +308,8 @@ template <class R, class... P>
 using SET = xenium::harris_michael_list_based_set<int, xp::reclaimer<R>, P...>;
 template <class R, std::size_t B, bool Memo, class H>
 using MAP = xenium::harris_michael_hash_map<int, int, xp::reclaimer<R>, xp::buckets<B>, xp::memoize_hash<Memo>, xp::hash<H>>;
+template <class R, std::size_t B, bool Memo, class H>
+using MAPMK = xenium::harris_michael_hash_map<MKey, int, xp::reclaimer<R>, xp::buckets<B>, xp::memoize_hash<Memo>, xp::hash<HashOfMKey<H>>>;
 
 
 // =================================================================================================
@@ -307,16 +336,27 @@ struct KeyOf {
 template <class C, bool Sorted>
 void iter_test() {
   set_op_names(kItOps, 8);
-  const int U = (int)opt("updaters", 1), m = (int)opt("m", 2), nkeys = (int)opt("keys", 3), L = (int)opt("steps", 4);
-  const int prefill = (int)opt("prefill", -1) >= 0 ? (int)opt("prefill", 0) : 1 + choose((1 << nkeys) - 1);
+  const int fixed = (int)opt("fixed", 0);
+  const int U = fixed ? 3 : (int)opt("updaters", 1), m = fixed ? 2 : (int)opt("m", 2), nkeys = fixed ? 4 : (int)opt("keys", 3), L = (int)opt("steps", 4);
+  const int prefill = fixed ? 0xd : (int)opt("prefill", -1) >= 0 ? (int)opt("prefill", 0) : 1 + choose((1 << nkeys) - 1);
   const bool allow_erase_it = opt("erase_it", 1) != 0;
   const bool seq_side_ops = U == 0;
   static int uops[MAXT][8], ukeys[MAXT][8];
-  for (int t = 0; t < U; t++)
+  for (int t = 0; t < U && !fixed; t++)
     for (int i = 0; i < m; i++) {
       uops[t][i] = choose(2); // emplace / erase
       ukeys[t][i] = choose(nkeys);
     }
+  if (fixed) {
+    // adversarial family "the list changes under a re-scan that starts behind the head" (seed C09c): elements {0,2,3};
+    // updater 1 inserts 1 and erases 2 (the traverser's position), updater 2 erases 1 (the node a re-scan has walked
+    // past), updater 3 erases 0 (the node the iterator's prev pointer points into).  Updaters that run to completion
+    // hand over for free, so the whole scenario needs only 2-3 preemptions of the traverser.
+    static const int fo[3][2] = {{I_EMPLACE, I_ERASE}, {I_ERASE, -1}, {I_ERASE, -1}};
+    static const int fk[3][2] = {{1, 2}, {1, 0}, {0, 0}};
+    for (int t = 0; t < 3; t++)
+      for (int i = 0; i < 2; i++) uops[t][i] = fo[t][i], ukeys[t][i] = fk[t][i];
+  }
   auto* c = new C();
   using K = KeyOf<C>;
   for (int k = 0; k < nkeys; k++)
@@ -378,7 +418,8 @@ void iter_test() {
     spawn(traverse);
     for (int t = 0; t < U; t++)
       spawn([=] {
-        for (int i = 0; i < m; i++) upd(uops[t][i], ukeys[t][i]);
+        for (int i = 0; i < m; i++)
+          if (uops[t][i] >= 0) upd(uops[t][i], ukeys[t][i]);
       });
     join_all();
   }
@@ -477,6 +518,10 @@ REGSET("lfrc", rec::LFRC);
 XMC_TEST_FN("set_greater_hp", (&setmap_test<SetAdapter<SET<rec::HPs<3>, xp::compare<std::greater<int>>>>>), "list based set with std::greater, HP");
 
 #define REGMAP(name, R, B, Memo, H) XMC_TEST_FN("map_" name, (&setmap_test<MapAdapter<MAP<R, B, Memo, H>>>), "hash map, " name)
+#define REGMAPMK(name, R, B, Memo, H) XMC_TEST_FN("map_mk_" name, (&setmap_test<MapAdapter<MAPMK<R, B, Memo, H>>>), "hash map with a move-destructive key type, " name)
+REGMAPMK("b1_hp", rec::HPs<3>, 1, false, HashIdentity);
+REGMAPMK("b1_memo_scr_ebr", rec::EBR, 1, true, HashScramble);
+REGMAPMK("b2_lfrc", rec::LFRC, 2, false, HashIdentity);
 REGMAP("b1_hp", rec::HPs<3>, 1, false, HashIdentity);
 REGMAP("b1_memo_hp", rec::HPs<3>, 1, true, HashIdentity);
 REGMAP("b1_memo_scr_hp", rec::HPs<3>, 1, true, HashScramble);
